@@ -150,4 +150,334 @@ theorem listItems_print (xs : List (Option Lit)) : ∀ (x : Option Lit) (acc : L
     simp only []
     rw [List.append_assoc, ih y (acc ++ itemVals x) rest k hrest (by simp at hf; omega), listValues_cons x, List.append_assoc]
 
+theorem primStart_append (x rest : List Tok) (h : primStart x = true) : primStart (x ++ rest) = true := by
+  cases x with
+  | nil => simp [primStart] at h
+  | cons t r =>
+    cases t with
+    | sym s =>
+      cases s <;> simp [primStart] at h
+      cases r with
+      | nil => simp [primStart] at h
+      | cons u r' =>
+        cases r' with
+        | nil => simp [primStart] at h
+        | cons v r'' =>
+          cases v with
+          | sym s' => cases s' <;> simp_all [primStart]
+          | _ => simp [primStart] at h
+    | _ => exact h
+
+/-! ### follow sets of the clause level -/
+
+def clauseLevel : Tok → Nat
+  | .word w =>
+    if w = "from" then 1 else if w = "where" then 2 else if w = "group" then 3 else if w = "having" then 4
+    else if w = "order" then 5 else if w = "pivot" then 6 else if w = "limit" then 7 else 0
+  | .sym .rparen => 8
+  | _ => 0
+
+/-- the head of the list (if any) is a clause word of level above `k` or a closing parenthesis -/
+def CFollow (k : Nat) : List Tok → Prop
+  | [] => True
+  | t :: _ => k < clauseLevel t
+
+theorem CFollow.mono {k j : Nat} {rest : List Tok} (h : CFollow k rest) (hj : j ≤ k) : CFollow j rest := by
+  cases rest with
+  | nil => trivial
+  | cons t r => exact Nat.lt_of_le_of_lt hj h
+
+theorem clauseLevel_tokLevel (t : Tok) (h : 0 < clauseLevel t) : tokLevel t = 6 := by
+  cases t with
+  | word w =>
+    simp only [clauseLevel] at h
+    by_cases h1 : w = "from"
+    · subst h1; simp [tokLevel, wordLevel]
+    by_cases h2 : w = "where"
+    · subst h2; simp [tokLevel, wordLevel]
+    by_cases h3 : w = "group"
+    · subst h3; simp [tokLevel, wordLevel]
+    by_cases h4 : w = "having"
+    · subst h4; simp [tokLevel, wordLevel]
+    by_cases h5 : w = "order"
+    · subst h5; simp [tokLevel, wordLevel]
+    by_cases h6 : w = "pivot"
+    · subst h6; simp [tokLevel, wordLevel]
+    by_cases h7 : w = "limit"
+    · subst h7; simp [tokLevel, wordLevel]
+    simp [h1, h2, h3, h4, h5, h6, h7] at h
+  | sym s => cases s <;> simp_all [clauseLevel, tokLevel]
+  | _ => simp [clauseLevel] at h
+
+theorem CFollow.follow {k : Nat} {rest : List Tok} (h : CFollow k rest) : Follow 5 rest := by
+  cases rest with
+  | nil => trivial
+  | cons t r =>
+    have : 0 < clauseLevel t := Nat.lt_of_le_of_lt (Nat.zero_le k) h
+    simp only [Follow, clauseLevel_tokLevel t this]; omega
+
+theorem CFollow.noComma {k : Nat} {rest : List Tok} (h : CFollow k rest) : NoComma rest := by
+  cases rest with
+  | nil => trivial
+  | cons t r =>
+    cases t with
+    | sym s => cases s <;> simp_all [CFollow, clauseLevel, NoComma]
+    | _ => trivial
+
+theorem stripWord_cf (w : String) (k : Nat) (rest : List Tok) (h : CFollow k rest) (hw : clauseLevel (.word w) ≤ k) :
+    stripWord w rest = none := by
+  apply stripWord_miss
+  intro t r e
+  subst e
+  cases t with
+  | word v =>
+    simp only [isW_word, beq_eq_false_iff_ne, ne_eq]
+    intro e; subst e
+    simp only [CFollow] at h; omega
+  | _ => rfl
+
+theorem stripWord_follow (w : String) (k : Nat) (rest : List Tok) (h : Follow k rest) (hw : wordLevel w ≤ k) :
+    stripWord w rest = none := by
+  apply stripWord_miss
+  intro t r e
+  subst e
+  exact isW_of_level w t k h hw
+
+/-! ### two-fuel eventual results (loops carry the fuel of their caller in the sub-parser) -/
+
+def Ev2 {β : Type} (p : Nat → Nat → Option β) (r : β) : Prop := ∃ n, ∀ a b, n ≤ a → n ≤ b → p a b = some r
+
+theorem headOK_append (x rest : List Tok) (h : headOK x = true) : headOK (x ++ rest) = true := by
+  cases x with
+  | nil => simp [headOK] at h
+  | cons t r => exact h
+
+theorem headOKE_append (x rest : List Tok) (h : headOKE x = true) : headOKE (x ++ rest) = true := by
+  cases x with
+  | nil => simp [headOKE] at h
+  | cons t r => exact h
+
+theorem isW_not_of_startOK (t : Tok) (h : startOK t = true) : isW "not" t = false := by
+  cases t with
+  | word w =>
+    simp only [isW_word, beq_eq_false_iff_ne, ne_eq]
+    intro e; subst e
+    simp [startOK, isKeyword, keywords] at h
+  | _ => rfl
+
+theorem stripNot_miss (ts : List Tok) (h : headOK ts = true) : stripWord "not" ts = none := by
+  apply stripWord_miss
+  intro t r e
+  subst e
+  exact isW_not_of_startOK t h
+
+theorem cmpAct_none (rest : List Tok) (h : Follow 3 rest) : cmpAct rest = .none := by
+  cases rest with
+  | nil => rfl
+  | cons t r =>
+    have h1 := isW_of_level "not" t 3 h (by decide)
+    have h2 := isW_of_level "is" t 3 h (by decide)
+    have h3 := isW_of_level "between" t 3 h (by decide)
+    simp [cmpAct, h1, h2, h3, cmpOpOf_none t h]
+
+theorem cmpAct_op (op : CmpOp) (r : List Tok) :
+    cmpAct (op.toks ++ r) = (match op with | .notin => .notin r | o => .op o.op r) := by
+  cases op <;> simp [CmpOp.toks, cmpAct, isW, cmpOpOf, CmpOp.op]
+
+theorem follow_toks (op : CmpOp) (r : List Tok) : Follow 2 (op.toks ++ r) := by
+  cases op <;> simp [CmpOp.toks, Follow, tokLevel, wordLevel]
+
+theorem follow_sumop (op : SumOp) (r : List Tok) : Follow 1 (op.tok :: r) := by
+  cases op <;> simp [SumOp.tok, Follow, tokLevel]
+
+theorem follow_termop (op : TermOp) (r : List Tok) : Follow 0 (op.tok :: r) := by
+  cases op <;> simp [TermOp.tok, Follow, tokLevel]
+
+theorem addOpOf_sumop (op : SumOp) : addOpOf op.tok = some op.op := by cases op <;> rfl
+theorem mulOpOf_termop (op : TermOp) : mulOpOf op.tok = some op.op := by cases op <;> rfl
+
+theorem follow_orTail (tl : List LConj) (rest : List Tok) (h : Follow 5 rest) : Follow 4 (printOrTail tl ++ rest) := by
+  cases tl with
+  | nil => exact h.mono (by omega)
+  | cons c cs => simp [printOrTail, Follow, tokLevel, wordLevel]
+
+theorem follow_andTail (tl : List LInv) (rest : List Tok) (h : Follow 4 rest) : Follow 3 (printAndTail tl ++ rest) := by
+  cases tl with
+  | nil => exact h.mono (by omega)
+  | cons c cs => simp [printAndTail, Follow, tokLevel, wordLevel]
+
+theorem ev2_binLoop_done (opOf : Tok → Option BinOp) (sub : Nat → List Tok → P Expr) (acc : Expr) (rest : List Tok)
+    (h : ∀ t r, rest = t :: r → opOf t = none) : Ev2 (fun a b => binLoop opOf (sub a) b acc rest) (acc, rest) :=
+  ⟨1, fun a b _ hb => by
+    obtain ⟨k, rfl⟩ : ∃ k, b = k + 1 := ⟨b - 1, by omega⟩
+    exact binLoop_done opOf (sub a) k acc rest h⟩
+
+theorem ev_postfix_done (acc : Expr) (rest : List Tok) (h : Follow 0 rest) : Ev (fun m => postfixLoop m acc rest) (acc, rest) :=
+  ⟨1, fun m hm => by
+    obtain ⟨k, rfl⟩ : ∃ k, m = k + 1 := ⟨m - 1, by omega⟩
+    exact postfixLoop_done k acc rest h⟩
+
+theorem litOfTok_word_none (n : String) (hk : isKeyword n = false) (hn : n ≠ "null") : litOfTok (.word n) = none := by
+  unfold litOfTok
+  split <;> simp_all [isKeyword, keywords]
+
+theorem printListItems_length (xs : List (Option Lit)) : xs.length + 1 ≤ (printListItems xs).length := by
+  induction xs with
+  | nil => simp [printListItems]
+  | cons x xs ih => cases x <;> simp [printListItems] <;> omega
+
+theorem printArgs_head (e : LExpr) (es : List LExpr) : ∃ tail, printArgs (e :: es) = printExpr e ++ tail := by
+  cases es with
+  | nil => exact ⟨_, rfl⟩
+  | cons e2 es' => exact ⟨_, rfl⟩
+
+theorem stripComma_miss (rest : List Tok) (h : NoComma rest) : stripComma rest = none := by
+  cases rest with
+  | nil => rfl
+  | cons t r =>
+    cases t with
+    | sym s => cases s <;> simp_all [stripComma, NoComma]
+    | _ => rfl
+
+theorem keyStartOK_append (x rest : List Tok) (hx : x ≠ []) (h : keyStartOK x = true) : keyStartOK (x ++ rest) = true := by
+  cases x with
+  | nil => exact absurd rfl hx
+  | cons t r => cases t <;> first | exact h | (rename_i a b c; cases c <;> exact h)
+
+theorem keyAct_expr (ts : List Tok) (h : keyStartOK ts = true) : keyAct ts = .expr := by
+  cases ts with
+  | nil => rfl
+  | cons t r =>
+    cases t with
+    | dec c e d => cases d <;> simp_all [keyStartOK, keyAct]
+    | int n => simp [keyStartOK] at h
+    | date y m d => simp [keyStartOK] at h
+    | _ => rfl
+
+theorem fromStartOK_append (x rest : List Tok) (hx : x ≠ []) (h : fromStartOK x = true) : fromStartOK (x ++ rest) = true := by
+  cases x with
+  | nil => exact absurd rfl hx
+  | cons t r =>
+    cases t with
+    | sym s =>
+      cases s <;> try rfl
+      cases r with
+      | nil => simp [fromStartOK] at h
+      | cons u r' => cases u <;> first | exact h | rfl
+    | word w => exact h
+    | _ => rfl
+
+theorem fromAct_body (ts : List Tok) (h1 : fromStartOK ts = true) (h2 : headOKE ts = true) : fromAct ts = .body ts := by
+  cases ts with
+  | nil => rfl
+  | cons t r =>
+    cases t with
+    | table n => simp [headOKE, startOK, isW] at h2
+    | sym s =>
+      cases s <;> try rfl
+      cases r with
+      | nil => rfl
+      | cons u r' =>
+        cases u with
+        | word w =>
+          have : (w == "select") = false := by simpa [fromStartOK] using h1
+          simp [fromAct, isW, this]
+        | _ => rfl
+    | _ => rfl
+
+theorem bodyAct_expr (ts : List Tok) (h1 : fromStartOK ts = true) : bodyAct ts = .expr := by
+  cases ts with
+  | nil => rfl
+  | cons t r =>
+    cases t with
+    | word w =>
+      simp only [fromStartOK, Bool.and_eq_true, bne_iff_ne, ne_eq] at h1
+      simp [bodyAct, isW, h1.1.1, h1.1.2, h1.2]
+    | _ => rfl
+
+/-- a parenthesised SELECT seen from `expression`: every level passes the atom through -/
+theorem passthrough_select (r : List Tok) (x : Expr) (rest : List Tok)
+    (h : Ev (fun m => parseAtom m (.word "select" :: r)) (x, .sym .rparen :: rest)) :
+    Ev (fun m => parseExpr m (.word "select" :: r)) (x, .sym .rparen :: rest) := by
+  obtain ⟨n, hn⟩ := h
+  refine ⟨n + 9, fun m hm => ?_⟩
+  obtain ⟨k, rfl⟩ : ∃ k, m = k + 9 := ⟨m - 9, by omega⟩
+  have hA := hn (k + 1) (by omega)
+  dsimp only at hA
+  have hpost : postfixLoop (k + 1) x (.sym .rparen :: rest) = some (x, .sym .rparen :: rest) :=
+    postfixLoop_done k x _ (by simp [Follow, tokLevel])
+  have hprim : parsePrimary (k + 2) (.word "select" :: r) = some (x, .sym .rparen :: rest) := by
+    simp only [parsePrimary, hA, hpost]
+  have hfac : parseFactor (k + 3) (.word "select" :: r) = some (x, .sym .rparen :: rest) := by
+    simp only [parseFactor, factorAct, hprim]
+  have hterm : parseTerm (k + 4) (.word "select" :: r) = some (x, .sym .rparen :: rest) := by
+    simp only [parseTerm, hfac]
+    exact binLoop_done mulOpOf _ (k + 2) x _ (fun t r' e => by cases e; rfl)
+  have hsum : parseSum (k + 5) (.word "select" :: r) = some (x, .sym .rparen :: rest) := by
+    simp only [parseSum, hterm]
+    exact binLoop_done addOpOf _ (k + 3) x _ (fun t r' e => by cases e; rfl)
+  have hcmp : parseCmp (k + 6) (.word "select" :: r) = some (x, .sym .rparen :: rest) := by
+    simp only [parseCmp, hsum]
+    simp [cmpAct, isW, cmpOpOf]
+  have hinv : parseInv (k + 7) (.word "select" :: r) = some (x, .sym .rparen :: rest) := by
+    simp only [parseInv, hcmp]
+    simp [stripWord, isW]
+  have hconj : parseConj (k + 8) (.word "select" :: r) = some (x, .sym .rparen :: rest) := by
+    simp only [parseConj, hinv]
+    rw [sepLoop_done "and" _ (k + 6) [x] _ (fun t r' e => by cases e; rfl)]
+  simp only [parseExpr, hconj]
+  rw [sepLoop_done "or" _ (k + 7) [x] _ (fun t r' e => by cases e; rfl)]
+
+/-! ### OPEN / CLOSE / CLEAR -/
+
+def openToks : Option Date → List Tok
+  | some d => [.word "open", .word "on", .date d.y d.m d.d]
+  | none => []
+def closeToks : CloseSpec → List Tok
+  | .absent => []
+  | .flag => [.word "close"]
+  | .on d => [.word "close", .word "on", .date d.y d.m d.d]
+def clearToks (b : Bool) : List Tok := if b then [.word "clear"] else []
+
+theorem printClauses_eq (o : Option Date) (c : CloseSpec) (cl : Bool) :
+    printClauses o c cl = openToks o ++ closeToks c ++ clearToks cl := by
+  cases o <;> cases c <;> cases cl <;> rfl
+
+theorem optDate_print (d : Date) (h : d.valid = true) (rest : List Tok) :
+    optDate (.date d.y d.m d.d :: rest) = some (d, rest) := by
+  simp [optDate, h]
+
+theorem parseClear_print (cl : Bool) (tail : List Tok) (k : Nat) (h : CFollow k tail) :
+    parseClear (clearToks cl ++ tail) = (cl, tail) := by
+  cases cl with
+  | true => simp [clearToks, parseClear, stripWord_hit]
+  | false => simp [clearToks, parseClear, stripWord_cf "clear" k tail h (by simp [clauseLevel])]
+
+theorem parseCloseClear_print (c : CloseSpec) (cl : Bool) (hc : closeOK c = true) (tail : List Tok) (k : Nat) (h : CFollow k tail) :
+    parseCloseClear (closeToks c ++ (clearToks cl ++ tail)) = some (c, cl, tail) := by
+  have hmiss : ∀ w, clauseLevel (.word w) = 0 → stripWord w (clearToks cl ++ tail) = none ∨ (cl = true ∧ w = "clear") := by
+    intro w hw
+    cases cl with
+    | true =>
+      by_cases e : w = "clear"
+      · exact Or.inr ⟨rfl, e⟩
+      · left; simp [clearToks, stripWord, isW, Ne.symm e]
+    | false => left; simpa [clearToks] using stripWord_cf w k tail h (by omega)
+  cases c with
+  | absent =>
+    have h1 : stripWord "close" (clearToks cl ++ tail) = none := by
+      rcases hmiss "close" (by simp [clauseLevel]) with h | ⟨_, h⟩
+      · exact h
+      · simp at h
+    simp [closeToks, parseCloseClear, parseClose, h1, parseClear_print cl tail k h]
+  | flag =>
+    have h1 : stripWord "on" (clearToks cl ++ tail) = none := by
+      rcases hmiss "on" (by simp [clauseLevel]) with h | ⟨_, h⟩
+      · exact h
+      · simp at h
+    simp [closeToks, parseCloseClear, parseClose, stripWord_hit, h1, parseClear_print cl tail k h]
+  | on d =>
+    have hd : d.valid = true := hc
+    simp [closeToks, parseCloseClear, parseClose, stripWord_hit, optDate_print d hd, parseClear_print cl tail k h]
+
 end Bql.Syn
